@@ -244,7 +244,7 @@ where
                     .await
                     .map_err(ManagerError::IdentityManager)?;
 
-                (None, None, vec![event])
+                (None, None, event.into_iter().collect())
             }
             SpacesArgs::Auth { .. } => {
                 let event = Group::process(self.clone(), &SpacesMessage::auth(message))
